@@ -4,6 +4,7 @@
   identifiers); the document-level statement is judged on every run.
 -/
 import PicoSVG.Model.Pipeline
+import PicoSVG.Proofs.IdsP
 
 set_option linter.unusedSectionVars false
 namespace PicoSVG.C08
@@ -111,5 +112,15 @@ theorem addToDefs_ids_nodup (kids : List Node) (el : Node) (nid : String)
     · subst ha
       exact fun e => hfresh.2 (e ▸ hb)
 
+
+/-- C08 (instancing): the copy of a `use` target that `_resolve_use` swaps in carries no id anywhere — whatever the
+    target looks like — so instancing the same content any number of times cannot duplicate an id -/
+theorem use_copy_has_no_ids (n : Node) (s : SvgObj) (c : Node) (s' : SvgObj)
+    (h : copyStripIds n s = .ok (c, s')) : idsOf c = [] := IdsP.use_copy_has_no_ids n s c s' h
+
+/-- C08 (stroke split): of the pieces `_stroke` returns for a shape at most one carries an id (both ids are cleared when
+    there are two pieces) -/
+theorem stroke_split_ids (mp : Bool) (sh2 st4 : ShapeRec) :
+    ((strokeOut mp sh2 st4).filter (fun p => p.getS "id" != "")).length ≤ 1 := IdsP.strokeOut_ids mp sh2 st4
 
 end PicoSVG.C08
